@@ -12,14 +12,15 @@ class C01(FullCheck):
           'answers fast / around the caller\'s deadline (+-0.1..20 ms, or exactly on it in the boundary '
           'class) / late / never, possibly chunked; refused, slow and black-holed connects; I/O faults '
           'at seeded operations; servers going down/up; members leaving/joining; same-instant timer '
-          'order fifo/lifo/random. Oracle per call over the whole history incl. a quiet tail >= 4 T_max: '
+          'order fifo/lifo/random; bursts of asynchronous calls with tiny timeouts after which the application '
+          'keeps the CPU past their deadlines (the clock moves, the loop does not). Oracle per call over the whole history incl. a quiet tail >= 4 T_max: '
           'exactly one completion, not later than the deadline rounded up to 10 ms, TimeoutError not '
           'before the deadline, result unchanged afterwards, and a value/declared exception is the '
           'server\'s reply to that very call (shared with C02). non-trivial = the call reached a server or '
           'timed out; distinct by (stack, #endpoints, balancer, open mode, outcome multiset, race classes)')
   REQUIRED_CLASSES = ('thrift', 'mux', 'issued-before-open', 'reply-before-timer', 'timer-before-reply',
                       'reply:near-deadline', 'reply:late', 'reply:never', 'server-down', 'leave', 'boundary',
-                      'io-fault:recv', 'io-fault:send')
+                      'io-fault:recv', 'io-fault:send', 'cpu-hog')
   ASSUMPTIONS = ('deadline = issue time + T on the virtual clock; rounded up to the 10 ms grid in exact '
                  'rationals, 2 us float tolerance; no timer lateness injected',)
 
